@@ -189,6 +189,17 @@ async def scenario(a, b, cfg, tap, marks):
                 if ch.readyState == "open":
                     ch.send("hello")
         await asyncio.sleep(0.1)
+        if cfg.get("renegotiate") and marks["connected"]:
+            # a re-offer on the established connection: close() may now fall into a setRemote/LocalDescription that is in flight
+            marks["negotiating"] = True
+            marks["renegotiating"] = True
+            (b if cfg["renegotiate"] == "answerer" else a).add_item(("t", "audio", "sendrecv", "addTransceiver-kind", None))
+            if cfg["renegotiate"] == "answerer":
+                await negotiate(b, a)
+            else:
+                await negotiate(a, b)
+            marks["negotiating"] = False
+            await asyncio.sleep(0.1)
         if cfg.get("sctp_aborted") and b.pc.sctp is not None and a.pc.sctp is not None:
             # the remote SCTP association is torn down (ABORT) while DTLS stays up; the application, unaware, creates one more channel
             await asyncio.wait_for(b.pc.sctp.stop(), 10)
@@ -268,6 +279,8 @@ async def run_once(cfg, mode, fire_at, out, desc, counter):
         out.counters["runs_with_ice_failed_before_close"] += 1
     if marks.get("sctp_aborted"):
         out.counters["runs_with_sctp_aborted_before_close"] += 1
+    if marks.get("renegotiating") and state_at_fire.get("negotiating"):
+        out.counters["runs_closed_during_renegotiation"] += 1
     if marks.get("waiting_for_candidates"):
         out.counters["runs_closed_while_waiting_for_candidates"] += 1
     if fire_at is None and mode == "after-channel-close":
@@ -439,6 +452,8 @@ def run_case(index, rng, tier):
     mode = MODES[index % len(MODES)]
     if index % 5 == 3:
         cfg["trickle"] = "never" if index % 10 == 3 else "late"
+    elif index % 10 in (1, 7):
+        cfg["renegotiate"] = "offerer" if index % 10 == 1 else "answerer"
     elif index % 10 == 4:
         cfg["sctp_aborted"] = True
         if not any(i[0] == "dc" for i in cfg["offerer"]["items"]):
@@ -446,8 +461,8 @@ def run_case(index, rng, tier):
     elif index % 10 == 6:
         cfg["ice_fails"] = True
         mode = "offerer" if index % 20 == 6 else "twice"
-    key = config_key(cfg) + (cfg.get("trickle"), cfg.get("ice_fails"), cfg.get("sctp_aborted"))
-    desc = {"config": repr(key)[:600], "mode": mode, "trickle": cfg.get("trickle"), "ice_fails": cfg.get("ice_fails"), "sctp_aborted": cfg.get("sctp_aborted")}
+    key = config_key(cfg) + (cfg.get("trickle"), cfg.get("ice_fails"), cfg.get("sctp_aborted"), cfg.get("renegotiate"))
+    desc = {"config": repr(key)[:600], "mode": mode, "trickle": cfg.get("trickle"), "ice_fails": cfg.get("ice_fails"), "sctp_aborted": cfg.get("sctp_aborted"), "renegotiate": cfg.get("renegotiate")}
     counter = Counter()
 
     def one(fire_at):
